@@ -273,6 +273,7 @@ type cbDriver struct {
 type cbConfig struct {
 	Fallback, Recovery, CheckPeriod time.Duration
 	Cond                            *condNode
+	FormatLogs                      bool
 }
 
 func reqID(req *http.Request) int {
@@ -300,8 +301,13 @@ func newCBDriver(cfg cbConfig) (*cbDriver, error) {
 		d.fellback <- reqID(req)
 		w.WriteHeader(http.StatusServiceUnavailable)
 	})
-	cb, err := cbreaker.New(h, cfg.Cond.String(), cbreaker.FallbackDuration(cfg.Fallback), cbreaker.RecoveryDuration(cfg.Recovery), cbreaker.CheckPeriod(cfg.CheckPeriod),
-		cbreaker.Fallback(fb), cbreaker.OnTripped(d.onTripped), cbreaker.OnStandby(d.onStandby))
+	opts := []cbreaker.Option{cbreaker.FallbackDuration(cfg.Fallback), cbreaker.RecoveryDuration(cfg.Recovery), cbreaker.CheckPeriod(cfg.CheckPeriod),
+		cbreaker.Fallback(fb), cbreaker.OnTripped(d.onTripped), cbreaker.OnStandby(d.onStandby)}
+	if cfg.FormatLogs {
+		// a Logger that really formats its arguments: every log call inside the breaker then runs String()
+		opts = append(opts, cbreaker.Logger(fmtLogger{}), cbreaker.Verbose(true))
+	}
+	cb, err := cbreaker.New(h, cfg.Cond.String(), opts...)
 	if err != nil {
 		return nil, err
 	}
@@ -795,5 +801,6 @@ func genCBConfig(r *rand.Rand, depth int) cbConfig {
 		Recovery:    pick(r, []time.Duration{time.Second, 2 * time.Second, 4 * time.Second}),
 		CheckPeriod: pick(r, []time.Duration{0, 100 * time.Millisecond, time.Second}),
 		Cond:        genCond(r, depth),
+		FormatLogs:  r.IntN(2) == 0,
 	}
 }
